@@ -1250,6 +1250,24 @@ where
         Ok(result)
     }
 
+    fn lookup(&self, key: &[u8]) -> Option<StateId> {
+        // The Louds storage has no transition()/is_final() view to walk: answer from the
+        // same key search contains() uses (the id is the one insert() returned)
+        if let TrieStorage::Louds { label_data, .. } = &self.storage {
+            return Self::find_key_position(label_data, key);
+        }
+
+        let mut state = self.root();
+        for &symbol in key {
+            state = self.transition(state, symbol)?;
+        }
+        if self.is_final(state) {
+            Some(state)
+        } else {
+            None
+        }
+    }
+
     fn contains(&self, key: &[u8]) -> bool {
         match &self.storage {
             TrieStorage::Patricia { nodes, edge_data, compressed_paths } => {
